@@ -8,7 +8,9 @@ def split_frontmatter(text: str) -> tuple[str, str]:
     rest of the document. If no frontmatter is found, returns an empty string
     and the original text.
     """
-    lines = text.splitlines()
+    # Only LF and CRLF end a line here. `str.splitlines()` would also split on other
+    # characters (form feed, U+2028, ...) that may legitimately occur inside YAML values.
+    lines = text.replace("\r\n", "\n").split("\n")
 
     # Skip empty lines at the beginning
     start_idx = 0
